@@ -65,7 +65,7 @@ def firstPortal : List Opt → Option Nat
   | _ :: r => firstPortal r
 
 def checkRAs (a b : RA) : List Problem :=
-  (if a.hopLimit ≠ b.hopLimit then [{ field := .hopLimit }] else []) ++
+  (if a.hopLimit ≠ 0 ∧ b.hopLimit ≠ 0 ∧ a.hopLimit ≠ b.hopLimit then [{ field := .hopLimit }] else []) ++
   (if a.managed ≠ b.managed then [{ field := .managed }] else []) ++
   (if a.other ≠ b.other then [{ field := .other }] else []) ++
   (if !checkDurations ms a.reachable b.reachable then [{ field := .reachable }] else []) ++
